@@ -36,6 +36,16 @@ def zone_K12(msg):
     low = msg.lower()
     return any(k in low and _WILD_RX[k].search(msg) is not None for k in SPEC_KEYS)
 
+# K14 (found by this property's oracle): `--K value` where an EARLIER key k1 of the list is a proper suffix of K
+# (password < admin_password/auth_password/chappassword, secret < chapsecret) and the value looks like a flag
+# (--?[A-z]+) and is followed by whitespace and another word: k1's `key --flag value` pattern takes the value for
+# the flag and masks the NEXT word as well.
+_K14_PAIRS = [(k1, k2) for i, k1 in enumerate(SPEC_KEYS) for k2 in SPEC_KEYS[i + 1:] if k2 != k1 and k2.endswith(k1)]
+_K14_RX = [re.compile(r'[-]{2}' + k2 + r'[0-9]*\s+--?[A-z]+\s+\S', re.DOTALL | re.IGNORECASE) for _, k2 in _K14_PAIRS]
+
+def zone_K14(msg):
+    return any(rx.search(msg) is not None for rx in _K14_RX)
+
 def _su():
     from oslo_utils import strutils
     return strutils
@@ -291,7 +301,10 @@ def oracle(c, io):
     return None
 
 def zone(c):
-    if c.get('op') == 'mask' and zone_K12(case_msg(c)): return 'K12'
+    if c.get('op') != 'mask': return None
+    m = case_msg(c)
+    if zone_K12(m): return 'K12'
+    if zone_K14(m): return 'K14'
     return None
 
 def classify(c, io):
